@@ -3310,6 +3310,10 @@ impl KotoVm {
                 .splice(unpack_index..unpack_index + 1, unpacked_values.drain(..));
         }
 
+        // The arguments have now been unpacked, and shouldn't be unpacked again when the call gets
+        // forwarded (e.g. to the @call function of a callable map).
+        info.packed_arg_count = 0;
+
         Ok(())
     }
 
